@@ -314,3 +314,102 @@ def fidelity(src, emitted, extra_vocab=()):
                                   % (' '.join(s_side), ' '.join(e_side)))
     return {"source_tokens": len(a), "emitted_tokens": len(b), "identical_tokens": same,
             "rewrite_hunks": len(hunks), "sample_hunks": hunks[:6]}
+
+# ------------------------------------------------------------- R5: std::vector
+def split_top(s, sep=','):
+    out, depth, cur = [], 0, []
+    for ch in s:
+        if ch in '([{<' and ch != '<': depth += 1
+        elif ch in ')]}': depth -= 1
+        if ch == sep and depth == 0:
+            out.append(''.join(cur)); cur = []
+        else:
+            cur.append(ch)
+    out.append(''.join(cur))
+    return [x.strip() for x in out]
+
+def r5_local_vectors(R, t, caps):
+    """`std::vector<T> a, b(n), c(n, v);` -> fixed-capacity arrays.  caps: {name: capacity expr}."""
+    rx = re.compile(r'std::vector<\s*(\w+)\s*>\s+([^;=]*?);')
+    def repl(m):
+        T = m.group(1)
+        decls = split_top(m.group(2))
+        out = []
+        for d in decls:
+            mm = re.match(r'^(\w+)\s*(?:\((.*)\))?$', d, re.S)
+            if not mm:
+                raise ExtractionBreak("R5: cannot parse vector declarator %r" % d)
+            nm, args = mm.group(1), mm.group(2)
+            if nm not in caps:
+                raise ExtractionBreak("R5: no capacity declared for local vector %s" % nm)
+            out.append("TSG_VEC_NEW(%s, %s, %s);" % (T, nm, caps[nm]))
+            if args is not None:
+                a = split_top(args)
+                init = a[1] if len(a) > 1 else "0"
+                out.append(" tsg_sized_%s(%s, &%s_size, %s_cap, %s, %s);" % (T, nm, nm, nm, a[0], init))
+            R.counts["R5-local-vector"] = R.counts.get("R5-local-vector", 0) + 1
+        return ' '.join(out)
+    return rx.sub(repl, t)
+
+def r5_vector_methods(R, t, vecs):
+    """vecs: {name: elem ctype} for every vector-like name in scope (locals, params, members
+    already flattened to name/name_size)."""
+    for v, T in vecs.items():
+        e = re.escape(v)
+        t = R.sub("R5-size", r'\b%s\s*\.\s*size\s*\(\s*\)' % e, v + '_size', t)
+        t = R.sub("R5-empty", r'\b%s\s*\.\s*empty\s*\(\s*\)' % e, '(%s_size == 0)' % v, t)
+        t = R.sub("R5-data", r'\b%s\s*\.\s*data\s*\(\s*\)' % e, v, t)
+        t = balanced_call_sub(R, "R5-reserve", t, r'\b%s\s*\.\s*reserve\s*(?=\()' % e, lambda m, a, v=v: "TSG_RESERVE(%s, %s)" % (v, a))
+        t = balanced_call_sub(R, "R5-resize", t, r'\b%s\s*\.\s*resize\s*(?=\()' % e,
+                              lambda m, a, v=v, T=T: "tsg_resize_%s(%s, &%s_size, %s_cap, %s)" % (T, v, v, v, a))
+        def ins(m, a, v=v, T=T):
+            parts = split_top(a)
+            mm = re.match(r'^(\w+)\s*\.\s*begin\s*\(\s*\)$', parts[1]) if len(parts) == 3 else None
+            if len(parts) != 3 or not re.match(r'^%s\s*\.\s*end\s*\(\s*\)$' % re.escape(v), parts[0]) or not mm \
+               or not re.match(r'^%s\s*\.\s*end\s*\(\s*\)$' % re.escape(mm.group(1)), parts[2]):
+                raise ExtractionBreak("R5: unsupported insert form %r" % a)
+            return "tsg_append_%s(%s, &%s_size, %s_cap, %s, %s_size)" % (T, v, v, v, mm.group(1), mm.group(1))
+        t = balanced_call_sub(R, "R5-insert-end", t, r'\b%s\s*\.\s*insert\s*(?=\()' % e, ins)
+        t = R.sub("R5-begin", r'\b%s\s*\.\s*begin\s*\(\s*\)' % e, v, t)
+    return t
+
+def r5_iterators(R, t, iters):
+    """iters: {iterator name: container name}.  `auto it = c.begin();` -> `size_t it = 0;`
+    (index form, never pointer form); *it -> c[it]; std::advance(it, n) -> it += n."""
+    for it, c in iters.items():
+        t = R.sub("R5-iter-decl", r'\bauto\s+%s\s*=\s*%s\s*(?:\.\s*begin\s*\(\s*\))?\s*;' % (it, c), 'size_t %s = 0;' % it, t)
+        t = balanced_call_sub(R, "R5-advance", t, r'\bstd::advance\s*(?=\(\s*%s\s*,)' % it,
+                              lambda m, a, it=it: "%s += %s" % (it, split_top(a)[1]))
+        t = R.sub("R5-iter-deref", r'\*\s*%s\b(?!\s*\+\+)' % it, '%s[%s]' % (c, it), t)
+        t = R.sub("R5-iter-deref-inc", r'\*\s*%s\s*\+\+' % it, '%s[%s++]' % (c, it), t)
+    return t
+
+def r5_copy_n(R, t, T="double", iters=None):
+    iters = iters or {}
+    def build(m, a):
+        parts = split_top(a)
+        src = parts[0]
+        if src in iters:
+            src = "&%s[%s]" % (iters[src], src)
+        return "tsg_copy_n_%s(%s, %s, %s)" % (T, src, parts[1], parts[2])
+    return balanced_call_sub(R, "R5-copy_n", t, r'\bstd::copy_n\s*(?=\()', build)
+
+def r9_throws(R, t, ret="return;"):
+    t = R.sub("R9-throw-invalid_argument", r'\bthrow\s+std::invalid_argument\s*\((?:[^()"]|"(?:\\.|[^"\\])*"|\([^()]*\))*\)\s*;',
+              '{ tsg_exc = TSG_INVALID_ARGUMENT; %s }' % ret, t)
+    t = R.sub("R9-throw-runtime_error", r'\bthrow\s+std::runtime_error\s*\((?:[^()"]|"(?:\\.|[^"\\])*"|\([^()]*\))*\)\s*;',
+              '{ tsg_exc = TSG_RUNTIME_ERROR; %s }' % ret, t)
+    t = R.sub("R9-throw-other", r'\bthrow\s+[^;]*;', '{ tsg_exc = TSG_OTHER; %s }' % ret, t)
+    return t
+
+def r10_receiver_calls(R, t, obj, cls, overloads=None, ptr=True):
+    """obj.method(args) -> cls_method(obj[, args]); overloads: {(method, first-arg-text): suffix}."""
+    overloads = overloads or {}
+    def build(m, a):
+        meth = m.group(1)
+        key = (meth, a.strip())
+        name = "%s_%s%s" % (cls, meth, overloads.get(key, overloads.get((meth, None), "")))
+        if key in overloads and overloads[key].endswith("!"):   # argument is a callback: dropped (R8)
+            return "%s_%s%s(%s)" % (cls, meth, overloads[key][:-1], obj)
+        return "%s(%s%s)" % (name, obj, (", " + a) if a.strip() else "")
+    return balanced_call_sub(R, "R10-receiver-call", t, r'\b%s\s*\.\s*(\w+)\s*(?=\()' % re.escape(obj), build)
